@@ -169,11 +169,15 @@ def parseCRes (j : Json) : R CRes :=
 def parseLayer (j : Json) : R Layer := do
   match (← arr j) with
   | [a, b, c, d] => return { declMin := ← a.getBool?, declMax := ← b.getBool?, declLimits := ← c.getBool?, ownCheck := ← d.getBool? }
+  | [a, b, c, d, r] =>
+    let ro ← (match r with | .null => pure none | .bool x => pure (some x) | _ => throw "bad readonly of a layer" : R (Option Bool))
+    return { declMin := ← a.getBool?, declMax := ← b.getBool?, declLimits := ← c.getBool?, ownCheck := ← d.getBool?, ro := ro }
   | _ => throw "bad layer"
 
 def parseLOp (j : Json) : R LOp := do
   match (← arr j) with
   | [.str "write", x, c, w] => return .write (← x.getInt?) (← (← arr c).mapM parseCRes) (← wresWith (·.getInt?) w)
+  | [.str "write", x, c, w, cl] => return .write (← x.getInt?) (← (← arr c).mapM parseCRes) (← wresWith (·.getInt?) w) (← cl.getBool?)
   | [.str "writeMin", x] => return .writeMin (← x.getInt?)
   | [.str "writeMax", x] => return .writeMax (← x.getInt?)
   | [.str "writeLimits", a, b] => return .writeLimits (← a.getInt?) (← b.getInt?)
@@ -212,7 +216,8 @@ def parseLRec (j : Json) : R LRec := do
 
 def lcfg (j : Json) : R LCfg := do
   return { lo := ← fldInt j "lo", hi := ← fldInt j "hi", layers := ← (← fldArr j "layers").mapM parseLayer,
-           hasW := ← fldBool j "hasW", omitUnch := ← fldBool j "omit" }
+           hasW := ← fldBool j "hasW", omitUnch := ← fldBool j "omit",
+           roCfg := match j.getObjVal? "roCfg" with | .ok (.bool b) => some b | _ => none }
 
 /-! control -/
 
